@@ -1,6 +1,7 @@
 package main
 
 import (
+	"regexp"
 	"encoding/json"
 	"fmt"
 	"math"
@@ -191,6 +192,13 @@ func matrixSpec(rng *lp.Rand) *bodySpec {
 			{"name", &Schema{Type: "string", MinLen: ip(1), MaxLen: ip(4)}, true}}}
 		add(&Schema{Ref: "Cat"})
 	}
+	// keywords that occur nowhere but on the values of a map (the tables of compiled patterns and of exact
+	// multipleOf rationals are collected by a walk over all types)
+	mapOnly := &patternPair{`^[A-Z]{2}$`, regexp.MustCompile(`^[A-Z]{2}$`), []string{"AB", "ZZ"}, []string{"", "a", "ABC", "aB"}}
+	mapOnly2 := &patternPair{`^x[0-9]$`, regexp.MustCompile(`^x[0-9]$`), []string{"x1", "x9"}, []string{"", "x", "y1", "x10"}}
+	add(g.Component(&Schema{Type: "object", AddMode: "schema", AddProps: &Schema{Type: "string", Pattern: mapOnly}}))
+	add(g.Component(&Schema{Type: "object", Props: []Prop{{"id", &Schema{Type: "integer"}, true}}, AddMode: "schema", AddProps: &Schema{Type: "array", Items: &Schema{Type: "string", Pattern: mapOnly2}}}))
+	add(g.Component(&Schema{Type: "object", AddMode: "schema", AddProps: &Schema{Type: "number", MultF: f64p(0.125)}}))
 	// many fields: required mask across byte boundaries
 	var many []Prop
 	for i := 0; i < 19; i++ {
